@@ -17,7 +17,7 @@ INFO = {
     "outside": ["crash = process death between two Python-level file operations or inside one write(); no fsync / power-loss reordering", "histories longer than sync, op, crashed sync, op, sync"],
     "stubs": ["memfs with logical clock, operation journal and crash injection (esp_kconfiglib.core's open / os / exists)"],
 }
-BUDGET = {"quick": 240, "thorough": 800}
+BUDGET = {"quick": 330, "thorough": 800}
 
 D = "/m/deps"
 
@@ -110,7 +110,7 @@ def jobs(tier, seed, excluded=()):
     odom = Dom(int_max=9, int_cands=["-3"], str_mode="cand", str_cands=["p", "zz", ""], hex_cands=["0x1f", "0x2"], float_cands=["0.25", "5"])
     cfgs = [("T01", None, False), ("T13b", None, True), ("T05", None, False), ("E_sync_empty", None, False), ("T01", "T01:mut:addopt", False), ("T01", "T01:mut:rmopt", False), ("T01", "T01:mut:rmdef", False)]
     if tier == "quick":
-        nfree, npairs, maxcrash, tmo = 4, 3, 9, 120
+        nfree, npairs, maxcrash, tmo = 4, 3, 9, 200
     else:
         nfree, npairs, maxcrash, tmo = 60, 12, 16, 500
         cfgs += [("T03", None, False), ("T07", None, False), ("T13", None, True), ("T03", "T03:mut:addopt", False), ("T06", None, False)]
